@@ -8,7 +8,7 @@ EXTENDS CamxLayout, Json, IOUtils
 Chars(s) == s   \* names are given as sequences of one-character strings
 NameSets == { << <<"O","3">> >>, << <<"N","O","2">>, <<"O","3">> >>,
               << <<"A","B","C","D","E","F","G","H","I","J">>, <<"X">>, <<"N","O">> >> }
-Starts == { <<1999, 365, 22>>, <<2000, 59, 23>>, <<1970, 1, 0>>, <<2069, 364, 21>>, <<2011, 365, 23>>, <<2004, 366, 22>> }
+Starts == { <<1999, 365, 22>>, <<2000, 59, 23>>, <<1970, 1, 0>>, <<2069, 364, 21>>, <<2011, 365, 23>>, <<2004, 366, 22>>, <<2011, 182, 5>> }
 Grids == { <<1, 1, 1>>, <<2, 1, 1>>, <<1, 2, 2>>, <<2, 2, 1>>, <<3, 2, 2>>, <<2, 3, 1>> }
 Quick == IOEnv.PNC_CAMX_SCALE = "quick"
 ConfigsAll ==
@@ -23,23 +23,31 @@ Configs == IF Quick THEN {x \in ConfigsAll : x.nx * x.ny * x.nz <= 4 /\ Len(x.sp
                                             /\ x.name[1] = "A" /\ (x.h24 <=> x.nt = 2)}
            ELSE ConfigsAll
 
+\* meteorological formats: one configuration record per format/grid/steps/start
+MetConfigs ==
+  { [fmt |-> f, spc |-> <<>>, nx |-> g[1], ny |-> g[2], nz |-> g[3], nt |-> nt,
+     year |-> st[1], jjj |-> st[2], hour |-> st[3], h24 |-> FALSE] :
+      f \in MetFmts, g \in { <<1, 1, 1>>, <<2, 1, 2>>, <<2, 2, 1>>, <<3, 2, 2>>, <<1, 2, 3>> },
+      nt \in 1..3, st \in { <<1999, 365, 22>>, <<2000, 59, 23>>, <<2011, 1, 0>> } }
+AllConfigs == CASE IOEnv.PNC_CAMX_FAMILY = "met" -> MetConfigs [] OTHER -> {x \in Configs : TimesExpressible(x)}
+
 VARIABLES c, n
 vars == <<c, n>>
-Init == c \in {x \in Configs : TimesExpressible(x)} /\ n = 0
+Init == c \in AllConfigs /\ n = 0
 Next == n < FileBytes(c) /\ n' = n + 1 /\ c' = c
 Spec == Init /\ [][Next]_vars
 
 \* ---- the memory-mapped uamiv reader's decision procedure on the first n bytes
-HeaderBytes(cc) == Offset(cc, 4)
-BlockBytes(cc) == Offset(cc, 4 + RecsPerStep(cc)) - HeaderBytes(cc)
+HeaderBytes(cc) == Offset(cc, NHeader(cc))
+BlockBytes(cc) == Offset(cc, NHeader(cc) + RecsPerStep(cc)) - HeaderBytes(cc)
 UamivOpen(cc, nn) ==
   IF nn < HeaderBytes(cc) THEN [k |-> "Err", n |-> 0]             \* a header cannot be mapped
   ELSE IF (nn - HeaderBytes(cc)) % BlockBytes(cc) # 0 THEN [k |-> "Err", n |-> 0]   \* "Partial time output"
   ELSE IF nn = HeaderBytes(cc) THEN [k |-> "Err", n |-> 0]         \* nothing to map
   ELSE [k |-> "Steps", n |-> (nn - HeaderBytes(cc)) \div BlockBytes(cc)]
 
-NeverFabricates == LET o == UamivOpen(c, n) IN o.k = "Steps" => o.n <= CompleteSteps(c, n)
-FullFileReadsAll == n = FileBytes(c) => UamivOpen(c, n) = [k |-> "Steps", n |-> c.nt]
+NeverFabricates == c.fmt = "uamiv" => LET o == UamivOpen(c, n) IN o.k = "Steps" => o.n <= CompleteSteps(c, n)
+FullFileReadsAll == (c.fmt = "uamiv" /\ n = FileBytes(c)) => UamivOpen(c, n) = [k |-> "Steps", n |-> c.nt]
 Tiles == FileBytes(c) = HeaderBytes(c) + c.nt * BlockBytes(c)
 EmitConstraint ==
   IF IOEnv.PNC_EMIT = "1" /\ n = 0
